@@ -205,7 +205,9 @@ func Run(args []string) *rep.Report {
 	rng := rand.New(rand.NewSource(*seed))
 	seen := map[string]string{} // cid -> shape json (distinct shapes must get distinct CIDs)
 	idx, decodes := 0, 0
-	bad := func(key string, tc *tcase, detail string) { r.Diverge(rep.Divergence{Key: key, Case: tc, Detail: detail}) }
+	bad := func(key string, tc *tcase, detail string) {
+		r.Diverge(rep.Divergence{Key: key, Case: tc, Detail: detail})
+	}
 	handle := func(line []byte) error {
 		tc := new(tcase)
 		if err := json.Unmarshal(line, tc); err != nil {
